@@ -29,6 +29,30 @@ class Broken(Exception):
     """The checker itself is wrong (self-check failed, nondeterminism): exit 2, never a VIOLATION."""
 
 
+class TaskTimeout(BaseException):
+    """raised inside a task by the CPU-time watchdog (ITIMER_PROF): the code under test does not terminate (or is
+    orders of magnitude slower than on the unchanged tree)"""
+
+
+class TaskHang(Exception):
+    """a task outside safe_task ran into the watchdog; carries a description for the verdict"""
+
+
+def task_cpu_limit(tier):
+    try:
+        return float(os.environ.get('VERIF_TASK_CPU_LIMIT', ''))
+    except ValueError:
+        return 300.0 if tier == 'quick' else 3000.0
+
+
+_TIER = {'tier': 'quick'}
+_POISONED = {'v': False}
+
+
+def _on_prof(signum, frame):
+    raise TaskTimeout()
+
+
 def quiet_library():
     """The library formats hexdumps eagerly inside LOGGER.debug; drop everything below CRITICAL."""
     logging.disable(logging.CRITICAL)
@@ -123,12 +147,22 @@ class Acc(object):
 # static fork pool
 
 def _worker(fn, tasks, idx, n, conn):
+    import signal
     try:
         quiet_library()
+        signal.signal(signal.SIGPROF, _on_prof)
         out = []
         for i in range(idx, len(tasks), n):
-            out.append((i, fn(tasks[i])))
+            # CPU-time watchdog around every task: a library loop that never ends becomes a verdict, not a stuck check
+            signal.setitimer(signal.ITIMER_PROF, task_cpu_limit(_TIER['tier']))
+            try:
+                out.append((i, fn(tasks[i])))
+            finally:
+                signal.setitimer(signal.ITIMER_PROF, 0)
         conn.send(('ok', out))
+    except TaskTimeout:
+        conn.send(('timeout', 'task %d of %d did not finish within %.0f s of CPU time' % (
+            i, len(tasks), task_cpu_limit(_TIER['tier']))))
     except BaseException:
         conn.send(('err', traceback.format_exc()))
     finally:
@@ -152,6 +186,7 @@ def pmap(fn, tasks, nworkers=None):
         procs.append((p, parent))
     results = [None] * len(tasks)
     err = None
+    hang = None
     for p, conn in procs:
         try:
             kind, payload = conn.recv()
@@ -160,11 +195,15 @@ def pmap(fn, tasks, nworkers=None):
         if kind == 'ok':
             for i, r in payload:
                 results[i] = r
+        elif kind == 'timeout':
+            hang = payload
         else:
             err = payload
         p.join()
     if err:
         raise Broken('worker failed:\n' + err)
+    if hang:
+        raise TaskHang(hang)
     return results
 
 
@@ -173,10 +212,22 @@ def safe_task(fn, prop, tier, seed):
     tree) is recorded as a violation of that task instead of breaking the whole check. Broken still propagates."""
     def run(indexed):
         idx, task = indexed
+        if _POISONED['v']:
+            acc = Acc()
+            acc.count('tasks_skipped_after_a_timeout_in_this_worker')
+            return acc
         try:
             return fn(task)
         except Broken:
             raise
+        except TaskTimeout:
+            _POISONED['v'] = True       # runaway threads / state may survive: do not trust this worker any more
+            acc = Acc()
+            acc.viol('%s.no_termination' % prop.lower(), {'task_index': idx, 'tier': tier, 'seed': seed},
+                     'task did not finish within %.0f s of CPU time' % task_cpu_limit(tier),
+                     'the task completes (a few seconds on the unchanged tree)',
+                     'the code under test loops (or became orders of magnitude slower)')
+            return acc
         except Exception as ex:
             acc = Acc()
             tb = traceback.format_exc().strip().splitlines()
@@ -240,7 +291,7 @@ def finish(mod, tier, seed, acc, desc, t0, replay_fn=None, extra_cov=None):
             continue
         first = details[0]
         # repeatability: a failing case must fail again when re-executed alone
-        if replay_fn is not None:
+        if replay_fn is not None and not sig.endswith('.no_termination'):
             again = replay_fn(first['case'])
             if sig not in again.violations:
                 raise Broken('case for %s did not fail again when re-executed alone: %s' % (sig, first))
